@@ -251,6 +251,8 @@ def run_case(case, ctx):
             own.index = df.index
             order = sorted(range(nc_), key=lambda j: nm[j])
             routes = {"nested->np3d": (lambda: D.from_nested_to_3d_numpy(own), arr),
+                      "nested->tab2d": (lambda: D.from_nested_to_2d_array(own, return_numpy=True).reshape(ni_, nc_, nt_), arr),
+                      "nested->tab2d-frame": (lambda: np.asarray(D.from_nested_to_2d_array(own), dtype=float).reshape(ni_, nc_, nt_), arr),
                       "nested->mi->nested": (lambda: D.from_multi_index_to_nested(D.from_nested_to_multi_index(own, instance_index="case", time_index="tp"), instance_index="case"), arr)}
             if not case["labels"].startswith("unsorted"):
                 routes["nested->long->nested"] = (lambda: D.from_long_to_nested(D.from_nested_to_long(own, "case_id", "reading_id", "dim_id"), column_names=[nm[j] for j in order]), arr[:, order, :])
@@ -266,6 +268,18 @@ def run_case(case, ctx):
                 ctx.check("path.values", same, "convert:own-time-labels:%s:values-or-instance-order-differ" % rname,
                           "a panel whose series cells carry their own time labels (%s windows) comes back with other values / instance order" % oname, arrangement=oname, **detail)
                 ctx.check("path.names", tix, "convert:own-time-labels:%s:cell-time-index-changed" % rname, "the cells' own time labels are not kept by the round trip", arrangement=oname)
+        # the same label set in every cell, one instance holding it in another order: cells are sequences, their labels are not sorted or aligned by
+        if ni_ >= 2 and nt_ >= 3:
+            odd = pd.DataFrame({nm[j]: [pd.Series(arr[i, j].copy(), index=(list(range(nt_))[::-1] if i == 1 else list(range(nt_)))) for i in range(ni_)] for j in range(nc_)})
+            for rname, fn in (("nested->np3d", lambda: D.from_nested_to_3d_numpy(odd)), ("nested->tab2d", lambda: D.from_nested_to_2d_array(odd, return_numpy=True).reshape(ni_, nc_, nt_)),
+                              ("nested->tab2d-frame", lambda: np.asarray(D.from_nested_to_2d_array(odd), dtype=float).reshape(ni_, nc_, nt_))):
+                try:
+                    got = np.asarray(fn(), dtype=float)
+                    same, detail = got.shape == arr.shape and np.array_equal(got, arr), {"second_instance": got[1, 0, :4].tolist(), "expected": arr[1, 0, :4].tolist()}
+                except Exception as e:  # noqa
+                    same, detail = False, {"exception": repr(e)[:160]}
+                ctx.check("path.values", same, "convert:own-time-labels:%s:values-reordered-by-cell-labels" % rname,
+                          "a cell whose time labels are stored in descending order comes back with its values reordered", **detail)
         ctx.tag("own-time-labels")
     # conversions that take labels for the result (instance labels, time index of the cells, column name): labels are put on, never aligned by
     X2 = arr[:, 0, :]
